@@ -40,7 +40,15 @@ MODES = [[False, False], [True, False], [True, True], [False, True]]
 def gen_graph(rng, wide=False):
     shape = rng.choice(["chain", "diamond", "shared", "dag", "dag", "dag2", "cyclic", "cyclic", "namecycle", "tiny"])
     n = rng.randint(2, 4) if shape == "tiny" else rng.randint(4, 8 if wide else 7)
-    names = ["p%d" % i for i in range(n)] if rng.random() < 0.5 else list("abcdefgh")[:n]
+    r = rng.random()
+    vpool = ["1", "2", "1.0"]
+    if r < 0.45:
+        names = ["p%d" % i for i in range(n)]
+    elif r < 0.88:
+        names = list("abcdefgh")[:n]
+    else:       # names and versions whose printed forms collide or are regular-expression syntax (D34-D36)
+        names = rng.sample(["a", "a-1", "a.b", "axb", "c++", "lib_x", "a-1-2", "cxx"], min(n, 8))
+        vpool = ["1", "2", "1-2", "2-1", "1.0+3"]
     two = {"dag2": 0.7, "namecycle": 0.7}.get(shape, 0.3)          # share of names with two versions
     p_unres = 0.12 if rng.random() < 0.5 else 0.0
     p_uns = 0.15 if rng.random() < 0.12 else 0.0
@@ -48,7 +56,7 @@ def gen_graph(rng, wide=False):
     p_expl = rng.choice([0.0, 0.3, 0.6])
     versions = {}
     for m in names:
-        versions[m] = rng.sample(["1", "2"], 2) if rng.random() < two else [rng.choice(["1", "2", "1.0"])]
+        versions[m] = rng.sample(vpool[:2] if len(vpool) == 3 else vpool, 2) if rng.random() < two else [rng.choice(vpool)]
     prods = []
     for i, m in enumerate(names):
         r = rng.random()
